@@ -36,3 +36,8 @@ class ClearNode(ConfigNode):
     @staticmethod
     def tag():
         return '!clear'
+
+    @namespace('ayns')
+    @property
+    def value(self):
+        return str()
